@@ -22,6 +22,10 @@ CHECKS = {
   "runtime monitoring: exhaustive enumeration of extension counts and differential header parsing against an independent reader; write monitor on every value the real merge routine produces",
   "All 65536 extension counts are executed through Header.Bytes/Parse/Skip and compared with an independent reader of the documented layout; differential accept/reject and split on ~10^6 random and near-valid byte strings; PutBasic on dirty buffers; every value written by the real merge routine over the C02 domain (stored values with 1-3 foreign extension blocks, foreign flag bits on incoming entries, padding on/off) is checked for well-formedness and for the id of the writing transaction.",
   "Trusted: hdr.Read (written from docs/schema-native.md).", "DESIGN.md section 6 C14"),
+ "C11": ("exploration",
+  "runtime monitoring of a real non-native Syncer stepped through SendOnce/LoadOnce against a map-based reference model of capture, merge and projection",
+  "Generated histories (plain and MDB_INTEGERKEY DBIs incl. key 0, DBI creation, inserts/overwrites/deletes/no-op rewrites, remote snapshots older/newer/deleting/adding DBIs) drive the real capture (SendOnce) and capture+merge+project (LoadOnce) steps; after every step the real application DBIs and the raw shadow DBIs must equal the reference model, capture stamps must fall in the step's clock bracket and be uniform, changed shadow values must be well-formed with the writing transaction's id.",
+  "Remote timestamps lie in the past of the local clock (documented shared-clock assumption); no ties generated; sweeper off.", "DESIGN.md section 6 C11"),
  "C15": ("exploration",
   "runtime monitoring of the real name builder/parser, of the sanitiser through a real SendOnce, and of a real Receiver on buckets with decoy names",
   "Round-trip and chronological-order oracles over >10^5 generated names per run (every digit-rollover boundary class 1970..2262, +-1ns/1s neighbours, non-UTC locations), panic monitor on arbitrary strings, sanitiser observed through the name and metadata of real uploaded blobs, and a real Receiver run against buckets full of other databases' and malformed names.",
